@@ -66,6 +66,8 @@ SAMPLES = [
     "x\n##### Part 1\n##### Part 2\nadjacent\n",
     "x\ny\n##### Part 1",
     "",
+    "page one\x0c\nstill page one\n##### Part 1\nb = 1\n##### Part 2\nc\n",   # form feed: not a line break for CPython
+    "s = '\u2028'\n##### Part 1\nb = 1\n",
 ]
 
 
@@ -206,6 +208,29 @@ def r2_offset_discipline(ctx, sym):
     ctx.check(ok, 'R2', 'traceback:line_number', ux, ln[0] if ln else init,
               "ExpandedTraceback.line_number is the raw line of the last frame (no section offset)",
               "an error on file line 4 inside section 1 is located on line 3 by the runtime feedback")
+    if ln:
+        line_number_provenance(ctx, ux, init, ln, 'R2')
+    if False:
+        # the raw line must be the traceback entry's own line (extract_tb / FrameSummary.lineno / tb_lineno): a frame's
+        # f_lineno is wherever the frame is *now*, which differs once finally/except blocks have run
+        defs_i = {norm(n.targets[0]): n.value for n in body_walk(init) if isinstance(n, ast.Assign)}
+
+        def raw_sources(e, depth=0):
+            out = set()
+            for x in ast.walk(e):
+                if isinstance(x, ast.Attribute) and x.attr in ('f_lineno', 'tb_lineno', 'lineno'):
+                    out.add(x.attr)
+                if isinstance(x, ast.Call) and call_name(x) == 'traceback.extract_tb':
+                    out.add('extract_tb')
+                if isinstance(x, ast.Name) and x.id in defs_i and depth < 4 and defs_i[x.id] is not e:
+                    out |= raw_sources(defs_i[x.id], depth + 1)
+            return out
+        srcs = raw_sources(ln[0].value)
+        ctx.check('f_lineno' not in srcs and bool(srcs & {'extract_tb', 'tb_lineno', 'lineno'}), 'R2',
+                  'traceback:line_number-provenance', ux, ln[0],
+                  "line_number is read from %s: a frame's f_lineno is the line the frame is executing now, not the "
+                  "line that raised (they differ after a finally block or an except ...: raise handler ran)" % sorted(srcs),
+                  "try:\n    x = 1/0\nfinally:\n    cleanup()   -> the runtime feedback is located on the cleanup line")
     okp = any(isinstance(n, ast.Assign) and any(is_self_attr(t, 'line_offsets') for t in n.targets)
               and norm(n.value) == 'line_offsets' for n in body_walk(init))
     ctx.check(okp, 'R2', 'traceback:stores-offsets', ux, init, "line offsets are not kept by the traceback",
@@ -224,11 +249,45 @@ def r2_offset_discipline(ctx, sym):
     ctx.check(ok, 'R2', 'sandbox:passes-offsets', sb, tb[0] if tb else cap,
               "the sandbox does not hand the submission's line offsets to the traceback",
               "runtime errors inside a section are section-relative")
+    for n in ast.walk(cap):
+        if isinstance(n, ast.Assign) and norm(n.targets[0]) == 'line_offsets' and \
+                norm(n.value) == 'self.report.submission.line_offsets':
+            from ..loader import ancestors as _anc
+            guards = [norm(a.test) for a in _anc(n) if isinstance(a, ast.If)]
+            ctx.check(all('submission' in g and 'filename' not in g and 'instructor' not in g for g in guards), 'R2',
+                      'sandbox:offsets-unconditional', sb, n,
+                      "the submission's line offsets are handed to the traceback only under %s; executions compiled "
+                      "under another filename (call()/evaluate() snippets) still fail inside the student's file" % guards,
+                      "call('f') of a student function that raises while section 2 is active: the location is "
+                      "section-relative")
     ctor = [c for c in calls(cap) if kw(c, 'location') is not None]
     ok = len(ctor) == 1 and norm(kw(ctor[0], 'location')) == 'traceback.line_number'
     ctx.check(ok, 'R2', 'sandbox:location', sb, ctor[0] if ctor else cap,
               "the runtime feedback's location is not the traceback's (offset-corrected) line number",
               "runtime error located on the wrong line")
+
+
+def line_number_provenance(ctx, ux, init, ln, rule):
+    """The raw line must be the traceback entry's own line (extract_tb / FrameSummary.lineno / tb_lineno): a frame's
+    f_lineno is wherever the frame is *now*, which differs once finally/except blocks have run."""
+    defs_i = {norm(n.targets[0]): n.value for n in body_walk(init) if isinstance(n, ast.Assign)}
+
+    def raw_sources(e, depth=0):
+        out = set()
+        for x in ast.walk(e):
+            if isinstance(x, ast.Attribute) and x.attr in ('f_lineno', 'tb_lineno', 'lineno'):
+                out.add(x.attr)
+            if isinstance(x, ast.Call) and call_name(x) == 'traceback.extract_tb':
+                out.add('extract_tb')
+            if isinstance(x, ast.Name) and x.id in defs_i and depth < 4 and defs_i[x.id] is not e:
+                out |= raw_sources(defs_i[x.id], depth + 1)
+        return out
+    srcs = raw_sources(ln[0].value)
+    ctx.check('f_lineno' not in srcs and bool(srcs & {'extract_tb', 'tb_lineno', 'lineno'}), rule,
+              'traceback:line_number-provenance', ux, ln[0],
+              "line_number is read from %s: a frame's f_lineno is the line the frame is executing now, not the line "
+              "that raised (they differ after a finally block or an except ...: raise handler ran)" % sorted(srcs),
+              "try:\n    x = 1/0\nfinally:\n    cleanup()   -> the runtime feedback is located on the cleanup line")
 
 
 def is_self_call_named(c, name):
